@@ -35,23 +35,26 @@ from urllib.parse import quote
 from ..core import Ctx, MachineryError, NCPU
 
 PY = sys.executable
-EPOCH = "1000000000"
 PROJECT_NAME = "Proj"
 KF_ID = "guessed-project-name-follows-set-order"
 
 # ------------------------------------------------------------------------------------- universes
 # name -> kind tree; ids used by the spec are the ranks of the names under sorted(Path) among siblings
 ZOPE_SRC = (
-    '"""Module Ma: differs from ma only in the case of a letter; zope interfaces inherited from ONE base."""\n'
-    'from zope.interface import Interface, implementer\n'
+    '"""Module Ma: differs from ma only in the case of a letter; zope interfaces inherited from ONE base;\n'
+    'no __all__: what `from .Ma import *` gives is what Ma defines followed by what it merely imports."""\n'
+    'from zope.interface import Interface, implementer\nfrom .ma import A, A2, A3\n'
     'class IAlpha(Interface):\n    "Alpha."\n    def run():\n        "Run in the way IAlpha wants it."\n'
     'class IBeta(Interface):\n    "Beta."\n    def run():\n        "Run in the way IBeta wants it."\n'
     'class IGamma(Interface):\n    "Gamma."\n    def run():\n        "Run in the way IGamma wants it."\n'
     '@implementer(IAlpha, IBeta, IGamma)\nclass ZBase:\n    "Declares the interfaces."\n'
     'class ZChild(ZBase):\n    "Inherits the interfaces from L{ZBase}."\n    def run(self):\n        pass\n')
 MODULE_SRC = {
-    "alpha/__init__.py": '"""Alpha package."""\nfrom alpha.ma import A\n__all__ = ["A", "helper"]\ndef helper(x: int = 1) -> int:\n    "Help."\n    return x\n',
-    "alpha/ma.py": '"""Module ma."""\nclass A:\n    "Class A."\n    def m(self):\n        "method"\nclass A2(A):\n    "Sub of A, see L{A}."\n',
+    # a three module chain: __init__ star-imports Ma (no __all__), Ma imports the names from ma, __init__ re-exports them
+    "alpha/__init__.py": '"""Alpha package."""\nfrom .Ma import *\n__all__ = ["A", "A2", "A3", "helper"]\ndef helper(x: int = 1) -> int:\n    "Help."\n    return x\n',
+    # four attributes assigned on ONE line: equal line numbers, "the order of insertion" decides under source order
+    "alpha/ma.py": ('"""Module ma."""\nclass A:\n    "Class A."\n    left = right = top = bottom = 0\n    def m(self):\n        "method"\n'
+                    'class A2(A):\n    "Sub of A, see L{A}."\nclass A3(A):\n    "Another sub of A."\n'),
     "alpha/Ma.py": ZOPE_SRC,
     "alpha/mb.py": '"""Module mb."""\nfrom alpha.ma import A\nclass B(A):\n    "B."\nclass B2(A):\n    "B2."\nCONST = {"k": 1, "j": 2}\n',
     "alpha/.hidden": "not python\n",
@@ -71,13 +74,24 @@ UNIVERSES = {
 }
 # collections of names that reach a page (Determinism.tla `sites`): (name, module, how, [(defining module, element)])
 # elements are listed in the order the code collects them; ranks are those of the sort key (fullName().lower())
+BOTH = lambda h: {"alphabetical": h, "source": h}
 SITES = [
-    ("interfaces:alpha.Ma.ZChild.run", "alpha.Ma", "list",
+    ("interfaces:alpha.Ma.ZChild.run", "alpha.Ma", BOTH("list"),
      [("alpha.Ma", "alpha.Ma.IAlpha"), ("alpha.Ma", "alpha.Ma.IBeta"), ("alpha.Ma", "alpha.Ma.IGamma")]),
-    ("subclasses:alpha.ma.A", "alpha.ma", "sorted",
-     [("alpha.ma", "alpha.ma.A2"), ("alpha.mb", "alpha.mb.B"), ("alpha.mb", "alpha.mb.B2"), ("beta.me", "beta.me.E"),
-      ("beta.sc.md", "beta.sc.md.D"), ("gamma", "gamma.G")]),
+    ("subclasses:alpha.ma.A", "alpha.ma", BOTH("sorted"),
+     [("alpha.ma", "alpha.A2"), ("alpha.ma", "alpha.A3"), ("alpha.mb", "alpha.mb.B"), ("alpha.mb", "alpha.mb.B2"),
+      ("beta.me", "beta.me.E"), ("beta.sc.md", "beta.sc.md.D"), ("gamma", "gamma.G")]),
+    # order in which _handleReExport moves the names into `alpha` = their order in allobjects (astbuilder._importAll)
+    ("reexports:alpha", "alpha", BOTH("list"),
+     [("alpha.ma", "alpha.A"), ("alpha.ma", "alpha.A2"), ("alpha.ma", "alpha.A3")]),
+    # "Inherited from A" on the page of A2: by name, or by line number and then insertion order (util.py:114-124)
+    ("inherited:alpha.A2", "alpha.ma", {"alphabetical": "sorted", "source": "list"},
+     [("alpha.ma", "left"), ("alpha.ma", "right"), ("alpha.ma", "top"), ("alpha.ma", "bottom")]),
 ]
+# option variants of an input: (member order, SOURCE_DATE_EPOCH, enumerated for inputs with at most `upto` roots)
+EPOCH = 1000000000
+VARIANTS = {"quick": [("alphabetical", EPOCH, 9), ("source", 0, 1)],
+            "thorough": [("alphabetical", EPOCH, 9), ("source", 0, 2), ("source", EPOCH, 1), ("alphabetical", 0, 1)]}
 FIXED_PAGES = {"index.html": [0, 0], "moduleIndex.html": [0, 1], "classIndex.html": [0, 2], "nameIndex.html": [0, 3],
                "undoccedSummary.html": [0, 4], "all-documents.html": [0, 5]}
 
@@ -131,7 +145,7 @@ class Tree:
             elif k == "mod":
                 self.name_of[sub] = self.name_of[path] + "." + p.name[:-3]
 
-    def universe(self, sites: bool = True) -> Dict[str, Any]:
+    def universe(self, sites: bool = True, variants: Sequence[Tuple[str, int, int]] = (("alphabetical", EPOCH, 9),)) -> Dict[str, Any]:
         out = []
         for name, mod, how, elems in (SITES if sites else []):
             if mod not in self.path_of_name:
@@ -140,7 +154,8 @@ class Tree:
             rank = {e: i for i, e in enumerate(sorted((e for _, e in present), key=str.lower), 1)}
             out.append({"name": name, "mod": list(self.path_of_name[mod]), "how": how,
                         "elems": [{"m": list(self.path_of_name[m]), "r": rank[e]} for m, e in present]})
-        return {"roots": self.roots, "dirs": self.dirs, "sites": out}
+        return {"roots": self.roots, "dirs": self.dirs, "sites": out,
+                "variants": [{"order": o, "epochset": True, "epoch": e, "upto": u} for o, e, u in variants]}
 
     def site_element(self, site: str, rank: int) -> str:
         elems = next(el for name, _, _, el in SITES if name == site)
@@ -302,6 +317,11 @@ def first_diff(a: Path, b: Path) -> Dict[str, str]:
     return {"ref": f"{len(la)} lines", "run": f"{len(lb)} lines"}
 
 
+SAMEPROC = ("import sys\nfrom pydoctor.driver import main\nwarm, args = sys.argv[1], sys.argv[2:]\n"
+            "first = list(args)\nfirst[first.index('--html-output') + 1] = warm\nmain(first)\nsys.exit(main(args))\n")
+_TABLE_ID = re.compile(rb"\bid\d+\b")
+
+
 class Runner:
     """Runs the real pydoctor as a subprocess under a chosen environment."""
 
@@ -313,21 +333,34 @@ class Runner:
         self.n = 0
 
     def run(self, src: Path, root_args: List[str], named: bool, seed: int, orders: Dict[str, List[str]], salt: int,
-            out: Path, extra_args: Sequence[str] = ()) -> Dict[str, Any]:
+            out: Path, extra_args: Sequence[str] = (), var: Optional[Dict[str, Any]] = None,
+            sameproc: bool = False) -> Dict[str, Any]:
         self.n += 1
         tag = out.name
         cfg = self.scratch / f"listing_{tag}.json"
         log = self.scratch / f"listing_{tag}.log"
         cfg.write_text(json.dumps({"orders": orders, "salt": salt, "log": str(log), "under": str(src) + os.sep}))
         env = {k: v for k, v in os.environ.items() if not k.startswith("C18_")}
-        env.update({"PYTHONHASHSEED": str(seed), "SOURCE_DATE_EPOCH": EPOCH, "C18_LISTING": str(cfg),
+        var = var or {"order": "alphabetical", "epochset": True, "epoch": EPOCH}
+        env.pop("SOURCE_DATE_EPOCH", None)
+        if var["epochset"]:
+            env["SOURCE_DATE_EPOCH"] = str(var["epoch"])
+        if var["order"] == "source":
+            extra_args = list(extra_args) + ["--cls-member-order=source", "--mod-member-order=source"]
+        env.update({"PYTHONHASHSEED": str(seed), "C18_LISTING": str(cfg),
                     "PYTHONPATH": str(self.site) + os.pathsep + env.get("PYTHONPATH", ""),
                     "PYTHONDONTWRITEBYTECODE": "1"})
         cmd = [PY, "-m", "pydoctor", "--html-output", str(out)]
+        warm = out.with_name(out.name + "_warm")
+        if sameproc:
+            # the run under observation is the SECOND pydoctor run of its process (what pydoctor.sphinx_ext does with two
+            # configured projects): the first one builds the same input into a directory that is thrown away
+            cmd = [PY, "-c", SAMEPROC, str(warm), "--html-output", str(out)]
         if named:
             cmd += ["--project-name", PROJECT_NAME]
         cmd += list(extra_args) + root_args
         p = subprocess.run(cmd, cwd=str(src), env=env, capture_output=True, text=True, timeout=300)
+        shutil.rmtree(warm, ignore_errors=True)
         listings = []
         if log.exists():
             listings = [json.loads(l) for l in log.read_text().splitlines() if l.strip()]
@@ -365,8 +398,26 @@ def observed_sites(out: Path) -> Dict[str, Any]:
         obs["subclasses:alpha.ma.A"] = re.findall(r'<a [^>]*>([^<]+)</a>', m.group(1)) if m else []
     f = out / "index.html"
     if f.exists():
-        m = re.search(r"Or start at one of the root\s+([a-z/]+):", f.read_text())
+        t = f.read_text()
+        m = re.search(r"Or start at one of the root\s+([a-z/]+):", t)
         obs["rootkinds"] = m.group(1) if m else ""
+        ids = [int(x) for x in re.findall(r'id="id(\d+)"', t)]
+        if ids:
+            obs["first_table_id"], obs["idbase"] = min(ids), 1 if min(ids) > 1 else 0
+        m = re.search(r" at (\d{4}-\d\d-\d\d \d\d:\d\d:\d\d)\.", t)        # footer.html:7
+        if m:
+            import calendar, time as _time
+            obs["buildtime"] = [0, calendar.timegm(_time.strptime(m.group(1), "%Y-%m-%d %H:%M:%S"))]
+    f = out / "all-documents.html"
+    if f.exists():
+        ids = re.findall(r'<li id="([^"]+)"', f.read_text())
+        obs["reexports:alpha"] = [i for i in ids if i in ("alpha.A", "alpha.A2", "alpha.A3")]
+    f = out / "alpha.A2.html"
+    if f.exists():
+        # the "Inherited from A" members table (and sidebar) of the subclass page
+        m = re.search(r'id="baseTables".*', f.read_text(), re.S) or re.search(r"Inherited from.*", f.read_text(), re.S)
+        seen = re.findall(r'href="alpha\.A\.html#(left|right|top|bottom)"', m.group(0)) if m else []
+        obs["inherited:alpha.A2"] = list(dict.fromkeys(seen))
     return obs
 
 
@@ -383,6 +434,10 @@ CONSTANTS MaxRoots = {maxroots}
           Source = "{source}"
           Guess = "{guess}"
           ReuseUpTo = {reuse}
+          PermuteUpTo = {permute}
+          EpochRule = "{epochrule}"
+          TableIds = "{tableids}"
+          SameProcUpTo = {sameproc}
           Listing = "{listing}"
 CONSTRAINT Collect
 CONSTRAINT Emit
@@ -391,14 +446,16 @@ POSTCONDITION Post
 
 
 def tlc_enum(ctx: Ctx, tree: Tree, maxroots: int, guess: str, listing: str = "sorted", count: bool = True, coverage: bool = False,
-             reuse: int = 9, sites_as_set: bool = False):
+             reuse: int = 9, sites_as_set: bool = False, variants: Sequence[Tuple[str, int, int]] = (("alphabetical", EPOCH, 9),),
+             epochrule: str = "is_set", permute: int = 9, tableids: str = "process_counter", sameproc: int = 0):
     f = ctx.scratch / f"universe_{tree.src.name}.json"
-    uni = tree.universe()
+    uni = tree.universe(variants=variants)
     if sites_as_set:
         for st in uni["sites"]:
-            st["how"] = "set"
+            st["how"] = BOTH("set")
     f.write_text(json.dumps(uni))
-    r = ctx.tlc("Determinism", CFG.format(maxroots=maxroots, source="enum", guess=guess, listing=listing, reuse=reuse), workers=1,
+    r = ctx.tlc("Determinism", CFG.format(maxroots=maxroots, source="enum", guess=guess, listing=listing, reuse=reuse, epochrule=epochrule, permute=permute,
+                                            tableids=tableids, sameproc=sameproc), workers=1,
                 env={"C18_UNIVERSE": str(f)}, check=True, timeout=1500, count=count, coverage=coverage)
     post = [x for x in r.printed if "dependent" in x]
     recs = [x for x in r.printed if "pid" in x]
@@ -427,6 +484,19 @@ def kf_rootname_set_order(w: Dict[str, Any]) -> bool:
     return w.get("same_file_set") is True and w.get("residual_after_projname_normalisation") == []
 
 
+KF_TABLE_IDS = "member-table-ids-count-on-across-runs-of-a-process"
+
+
+def kf_table_ids(w: Dict[str, Any]) -> bool:
+    """Known finding: ChildTable.last_id is a class attribute, never reset: the id="idN" of the member tables of a run
+    continue where the previous pydoctor run of the same process stopped.  Matches ONLY a run that was the second of its
+    process compared with a first run, with the same file set, whose every difference disappears when the numbers of
+    the table ids are masked."""
+    return (w.get("invariant") == "OutputIndependentOfEnvironment" and w.get("env", {}).get("outdir") == "sameproc"
+            and w.get("ref_env", {}).get("outdir") == "fresh" and w.get("same_file_set") is True
+            and w.get("n_differing", 0) > 0 and w.get("residual_after_table_id_normalisation") == [])
+
+
 def compare_with_ref(ref_out: Path, ref_digest: Dict[str, str], out: Path, name_ref: Optional[str],
                      name_out: Optional[str]) -> Optional[Dict[str, Any]]:
     dg = tree_digest(out)
@@ -434,7 +504,13 @@ def compare_with_ref(ref_out: Path, ref_digest: Dict[str, str], out: Path, name_
         return None
     differing = sorted(k for k in set(dg) | set(ref_digest) if dg.get(k) != ref_digest.get(k))
     res = residual(ref_out, out, differing, name_ref or "", name_out or "")
-    return {"differing_files": differing[:12], "n_differing": len(differing), "same_file_set": set(dg) == set(ref_digest),
+    ids_left = []
+    for rel in differing:
+        a, b = ref_out / rel, out / rel
+        if a.is_symlink() or b.is_symlink() or not a.is_file() or not b.is_file() \
+                or _TABLE_ID.sub(b"idN", a.read_bytes()) != _TABLE_ID.sub(b"idN", b.read_bytes()):
+            ids_left.append(rel)
+    return {"residual_after_table_id_normalisation": ids_left[:12], "differing_files": differing[:12], "n_differing": len(differing), "same_file_set": set(dg) == set(ref_digest),
             "observed_projname": [name_ref, name_out], "residual_after_projname_normalisation": res[:12],
             "first_difference": first_diff(ref_out / differing[0], out / differing[0]) if differing else {},
             "first_residual_difference": first_diff(ref_out / res[0], out / res[0]) if res else {}}
@@ -475,7 +551,7 @@ def realise_enumeration(ctx: Ctx, runner: Runner, tree: Tree, uname: str, recs: 
             raise MachineryError(f"no reference (identity environment) state for project {pid}")
         env = prepare(rec)
         out = outbase / f"ref_{pid}"
-        o = runner.run(tree.src, env["root_args"], rec["named"], env["seed"], env["orders"], env["salt"], out)
+        o = runner.run(tree.src, env["root_args"], rec["named"], env["seed"], env["orders"], env["salt"], out, var=rec["var"])
         if o["rc"] != 0 or not out.exists():
             raise MachineryError(f"reference pydoctor run failed rc={o['rc']}: {o['tail']}")
         refs[pid] = {"rec": rec, "env": env, "out": out, "digest": tree_digest(out), "obs": o}
@@ -496,6 +572,11 @@ def realise_enumeration(ctx: Ctx, runner: Runner, tree: Tree, uname: str, recs: 
             real = obs.get(st["name"])
             if real is None or real != model_names[:len(real)] or (model_names and not real):
                 bad["site:" + st["name"]] = {"model": model_names, "real": real}
+        if obs.get("idbase") is not None and obs["idbase"] != rec["idbase"]:
+            bad["table_ids"] = {"model": "start at id1" if rec["idbase"] == 0 else "continue after the previous run of the process",
+                                "real_first_id": obs.get("first_table_id")}
+        if obs.get("buildtime") != rec["buildtime"]:
+            bad["buildtime"] = {"model": rec["buildtime"], "real": obs.get("buildtime")}
         kinds = "/".join({1: "modules", 2: "packages"}[k] for k in rec.get("rootkinds", []))
         if kinds != (obs.get("rootkinds") or ""):
             bad["rootkinds"] = {"model": kinds, "real": obs.get("rootkinds")}
@@ -519,7 +600,8 @@ def realise_enumeration(ctx: Ctx, runner: Runner, tree: Tree, uname: str, recs: 
         out = outbase / f"run_{idx}"
         if rec["outdir"] == "reused":
             shutil.copytree(ref["out"], out, symlinks=True)
-        o = runner.run(tree.src, env["root_args"], rec["named"], env["seed"], env["orders"], env["salt"], out)
+        o = runner.run(tree.src, env["root_args"], rec["named"], env["seed"], env["orders"], env["salt"], out, var=rec["var"],
+                       sameproc=rec["outdir"] == "sameproc")
         try:
             name_ref = ref["obs"]["guess"] or PROJECT_NAME
             name_out = o["guess"] or PROJECT_NAME
@@ -551,14 +633,16 @@ def judge_enumeration(ctx: Ctx, tree: Tree, uname: str, res: Dict[str, Any], dep
         rec = r["rec"]
         ctx.traces += 1
         ref = res["refs"][rec["pid"]]
-        project = {"roots": [tree.root_name[x] for x in rec["roots"]], "named": rec["named"], "universe": uname}
+        project = {"roots": [tree.root_name[x] for x in rec["roots"]], "named": rec["named"], "universe": uname,
+                   "member_order": rec["var"]["order"], "source_date_epoch": rec["var"]["epoch"]}
         if r["diff"] is not None:
             dependent_real.add(rec["pid"])
             w = {"invariant": "OutputIndependentOfEnvironment", "origin": "enum", "project": project,
                  "ref_env": env_summary(tree, ref["rec"], ref["env"]), "env": env_summary(tree, rec, r["env"]),
                  **r["diff"]}
             ctx.violation({**w, "key": f"{uname}:{project['roots']}:{project['named']}:" +
-                                       ("name-only" if not r["diff"]["residual_after_projname_normalisation"] and r["diff"]["same_file_set"]
+                                       ("table-ids-only" if r["diff"].get("residual_after_table_id_normalisation") == [] and r["diff"]["same_file_set"]
+                                        else "name-only" if not r["diff"]["residual_after_projname_normalisation"] and r["diff"]["same_file_set"]
                                         else ",".join(r["diff"]["residual_after_projname_normalisation"][:3] or r["diff"]["differing_files"][:3]))})
         if r["drift"]:
             drift += 1
@@ -629,11 +713,13 @@ def observed_runs(ctx: Ctx, runner: Runner, pool: ThreadPoolExecutor, rng: rando
 def run(ctx: Ctx) -> int:
     rng = random.Random(ctx.seed)
     ctx.register_matcher(KF_ID, kf_rootname_set_order)
+    ctx.register_matcher(KF_TABLE_IDS, kf_table_ids)
     runner = Runner(ctx.scratch)
     pool = ThreadPoolExecutor(max_workers=max(2, min(NCPU - 2, 14)))
     plans = [("small", 2, 1)] if ctx.quick else [("small", 3, 9), ("large", 1, 9)]
     nseeds = 64 if ctx.quick else 128
     guess_variant = None
+    table_variant = None
     summary: Dict[str, Any] = {}
     total_recs = 0
     nontrivial = 0
@@ -642,7 +728,11 @@ def run(ctx: Ctx) -> int:
             src = ctx.scratch / f"src_{uname}"
             materialise(src, UNIVERSES[uname])
             tree = Tree(src, sorted({f.split("/")[0] for f in UNIVERSES[uname]}))
-            recs, dep_model, r = tlc_enum(ctx, tree, maxroots, "rootobjects", coverage=ctx.quick, reuse=reuse)
+            variants = VARIANTS[ctx.tier] if uname == "small" else VARIANTS["quick"][:1]
+            permute = 1 if ctx.quick else 9
+            sameproc = 1 if uname == "small" else 0
+            recs, dep_model, r = tlc_enum(ctx, tree, maxroots, "rootobjects", coverage=ctx.quick, reuse=reuse, variants=variants,
+                                          permute=permute, sameproc=sameproc)
             if r.coverage:
                 ctx.extra["action_coverage"] = r.coverage
                 ctx.extra["actions_never_taken"] = [a for a, c in r.coverage.items() if c == 0 and a[0].isupper() and a != "Init"]
@@ -650,7 +740,7 @@ def run(ctx: Ctx) -> int:
             # which of the two transcriptions of the name guess does the code follow?  (command line order = the code
             # since fix 2ce009d; set iteration = before it).  Both live in the spec; use the one the code conforms to.
             def name_mismatches(records: List[Dict[str, Any]]) -> List[Tuple[Dict[str, Any], str]]:
-                key = lambda q: json.dumps([q["pid"], q["outdir"], q["setOrder"], q["listing"]], sort_keys=True)
+                key = lambda q: json.dumps([q["roots"], q["named"], q["var"], q["outdir"], q["setOrder"], q["listing"]], sort_keys=True)
                 byk = {key(q): q for q in records}
                 bad = []
                 for x in res["runs"]:
@@ -663,7 +753,7 @@ def run(ctx: Ctx) -> int:
             mism = name_mismatches(recs)
             variant = "rootobjects"
             if mism:
-                recs2, dep2, _ = tlc_enum(ctx, tree, maxroots, "set", reuse=reuse)
+                recs2, dep2, _ = tlc_enum(ctx, tree, maxroots, "set", reuse=reuse, variants=variants, permute=permute, sameproc=sameproc)
                 mism2 = name_mismatches(recs2)
                 if len(mism2) < len(mism):
                     mism, dep_model, variant = mism2, dep2, "set"
@@ -672,6 +762,17 @@ def run(ctx: Ctx) -> int:
             if guess_variant not in (None, variant):
                 ctx.notes.append(f"name guess variant differs between universes: {guess_variant} / {variant}")
             guess_variant = variant
+            # ... and which transcription of the table id counter (process-wide as in the code as it is, or per run)
+            sp = [x for x in res["runs"] if x["rec"]["outdir"] == "sameproc"]
+            if sp and all("table_ids" in (x["drift"] or {}) for x in sp):
+                _, dep_model, _ = tlc_enum(ctx, tree, maxroots, variant, reuse=reuse, variants=variants, permute=permute,
+                                           sameproc=sameproc, tableids="per_run", count=False)
+                for x in sp:
+                    del x["drift"]["table_ids"]
+                    x["drift"] = x["drift"] or None
+                table_variant = "per_run"
+            elif sp:
+                table_variant = "process_counter"
             j = judge_enumeration(ctx, tree, uname, res, dep_model)
             j["terminal_states"] = len(recs)
             j["projects"] = len({x["pid"] for x in recs})
@@ -686,6 +787,7 @@ def run(ctx: Ctx) -> int:
         ctx.exhaustive = True
         ctx.extra["enumerations"] = summary
         ctx.extra["name_guess_variant_followed_by_code"] = guess_variant
+        ctx.extra["table_id_variant_followed_by_code"] = table_variant
 
         # ---- model-level negative control: with the listing NOT sorted the register mechanism must report dependence
         src = ctx.scratch / "src_small"
@@ -693,10 +795,13 @@ def run(ctx: Ctx) -> int:
         _, dep_sorted, _ = tlc_enum(ctx, tree, 1, "rootobjects", "sorted", count=False)
         _, dep_raw, _ = tlc_enum(ctx, tree, 1, "rootobjects", "raw", count=False)
         _, dep_sets, _ = tlc_enum(ctx, tree, 1, "rootobjects", "sorted", count=False, reuse=0, sites_as_set=True)
-        ctx.extra["negative_control_model"] = {"dependent_with_sorted_listing": sorted(dep_sorted),
+        _, dep_epoch, _ = tlc_enum(ctx, tree, 1, "rootobjects", "sorted", count=False, reuse=0, variants=[("alphabetical", 0, 1)],
+                                   epochrule="truthy")
+        ctx.extra["negative_control_model"] = {"dependent_when_epoch_zero_counts_as_unset": sorted(dep_epoch),
+                                               "dependent_with_sorted_listing": sorted(dep_sorted),
                                                "dependent_with_raw_listing": sorted(dep_raw),
                                                "dependent_with_name_collections_iterated_as_sets": sorted(dep_sets)}
-        if dep_sorted or not dep_raw or not dep_sets:
+        if dep_sorted or not dep_raw or not dep_sets or not dep_epoch:
             raise MachineryError(f"negative control of the hyper-property registers failed: {dep_sorted} / {dep_raw}")
 
         # ---- code -> spec
@@ -717,13 +822,15 @@ def run(ctx: Ctx) -> int:
                 listing.append([{"id": ids[n], "kind": d["ents"][ids[n]]["kind"]} for n in byd[dp] if n in ids])
             rid = {v: k for k, v in tree.root_name.items()}
             fruns.append({"reg": r["pi"] + 1, "u": tree.universe(sites=False), "roots": [rid[n] for n in r["pr"]["roots"]],
-                          "named": r["pr"]["named"], "setOrder": [rid[n] for n in r["setorder"]],
+                          "named": r["pr"]["named"], "var": {"order": "alphabetical", "epochset": True, "epoch": EPOCH, "upto": 9},
+                          "setOrder": [rid[n] for n in r["setorder"]],
                           "listing": listing, "outdir": r["outdir"]})
         f = ctx.scratch / "runs.json"
         f.write_text(json.dumps(fruns))
         file_drift = 0
         gv = guess_variant or "set"
-        r2 = ctx.tlc("Determinism", CFG.format(maxroots=0, source="file", guess=gv, listing="sorted", reuse=9), workers=1,
+        r2 = ctx.tlc("Determinism", CFG.format(maxroots=0, source="file", guess=gv, listing="sorted", reuse=9, epochrule="is_set", permute=9,
+                                            tableids="process_counter", sameproc=0), workers=1,
                      env={"C18_RUNS": str(f)}, check=True, timeout=1500)
         got = {x["pid"]: x for x in r2.printed if "pid" in x}
         if len(got) != len(fruns):
@@ -804,7 +911,9 @@ def replay(ctx: Ctx, path: str) -> int:
             out = ctx.scratch / f"out{i}"
             if e.get("outdir") == "reused" and outs:
                 shutil.copytree(outs[0][0], out, symlinks=True)
-            o = runner.run(src, args, pr["named"], e["hash_seed"], orders, e.get("listing_salt", i), out)
+            o = runner.run(src, args, pr["named"], e["hash_seed"], orders, e.get("listing_salt", i), out,
+                           var={"order": pr.get("member_order", "alphabetical"), "epochset": True,
+                                "epoch": pr.get("source_date_epoch", EPOCH)})
             outs.append((out, o))
         diff = compare_with_ref(outs[0][0], tree_digest(outs[0][0]), outs[1][0], outs[0][1]["guess"] or PROJECT_NAME,
                                 outs[1][1]["guess"] or PROJECT_NAME)
